@@ -19,15 +19,16 @@ Record senv := {
   se_stores : NM.t mstore;      (* resources MaskedStorage<T>, by storage id *)
   se_table : list N;            (* MetaTable<dyn AnyStorage>: registration order *)
   se_cx : ctx;                  (* effects of the current operation *)
-  se_ideal : bool }.            (* every storage is the plain map (specification level) *)
+  se_ideal : bool;              (* every storage is the plain map (specification level) *)
+  se_cs : NM.t (NM.t Z) }.      (* change sets held by the caller, by slot: index -> accumulated amount *)
 
 Definition env_init (ideal : bool) : senv :=
-  {| se_stores := NM.empty mstore; se_table := []; se_cx := cx0; se_ideal := ideal |}.
+  {| se_stores := NM.empty mstore; se_table := []; se_cx := cx0; se_ideal := ideal; se_cs := NM.empty (NM.t Z) |}.
 
 Definition env_cx (e : senv) (c : ctx) : senv :=
-  {| se_stores := se_stores e; se_table := se_table e; se_cx := c; se_ideal := se_ideal e |}.
+  {| se_stores := se_stores e; se_table := se_table e; se_cx := c; se_ideal := se_ideal e; se_cs := se_cs e |}.
 Definition env_put (e : senv) (sid : N) (ms : mstore) (c : ctx) : senv :=
-  {| se_stores := NM.add sid ms (se_stores e); se_table := se_table e; se_cx := c; se_ideal := se_ideal e |}.
+  {| se_stores := NM.add sid ms (se_stores e); se_table := se_table e; se_cx := c; se_ideal := se_ideal e; se_cs := se_cs e |}.
 Definition env_fail (e : senv) : senv := env_cx e (cx_fail (se_cx e)).
 
 (* the effects of the previous operation are forgotten, the stuck flag is sticky *)
@@ -45,7 +46,7 @@ Definition env_register (e : senv) (sid : N) : senv :=
                     | None => NM.add sid (ms_new (if se_ideal e then KBTree else k) w (match k with KNull => true | _ => false end)) (se_stores e)
                     end in
       let table := if existsb (N.eqb sid) (se_table e) then se_table e else se_table e ++ [sid] in
-      {| se_stores := stores; se_table := table; se_cx := se_cx e; se_ideal := se_ideal e |}
+      {| se_stores := stores; se_table := table; se_cx := se_cx e; se_ideal := se_ideal e; se_cs := se_cs e |}
   end.
 
 (* builder.with(c): WriteStorage fetch (panics if the component is not registered), insert(..).unwrap() *)
@@ -75,7 +76,7 @@ Fixpoint env_purge_tbl (stores : NM.t mstore) (tbl : list N) (ids : list N) (c :
 
 Definition env_delete_components (e : senv) (ents : list entity) : senv :=
   let '(stores, c) := env_purge_tbl (se_stores e) (se_table e) (map fst ents) (se_cx e) in
-  {| se_stores := stores; se_table := se_table e; se_cx := c; se_ideal := se_ideal e |}.
+  {| se_stores := stores; se_table := se_table e; se_cx := c; se_ideal := se_ideal e; se_cs := se_cs e |}.
 
 (* drop(world): every MaskedStorage clears itself *)
 Fixpoint env_drop_all (l : list (N * mstore)) (c : ctx) : ctx :=
@@ -85,7 +86,7 @@ Fixpoint env_drop_all (l : list (N * mstore)) (c : ctx) : ctx :=
   end.
 Definition env_drop_world (e : senv) : senv :=
   {| se_stores := NM.empty mstore; se_table := []; se_cx := env_drop_all (NM.elements (se_stores e)) (se_cx e);
-     se_ideal := se_ideal e |}.
+     se_ideal := se_ideal e; se_cs := se_cs e |}.
 
 (* which storage an operation addresses, and whether it takes an entity handle *)
 Definition sop_sid (so : sop) : N :=
